@@ -13,6 +13,7 @@ import (
 	"os"
 	"os/exec"
 	"path/filepath"
+	"regexp"
 	"runtime"
 	"sort"
 	"strconv"
@@ -215,6 +216,12 @@ func replayParent(path string) int {
 		fmt.Fprintln(os.Stderr, "replay:", err)
 		return 2
 	}
+	var probe struct {
+		Free bool `json:"free"`
+	}
+	if json.Unmarshal(rf.Case, &probe) == nil && probe.Free {
+		return replayFree(rf, path)
+	}
 	self, err := os.Executable()
 	if err != nil {
 		return 2
@@ -329,6 +336,9 @@ type procState struct {
 	lastIx string
 }
 
+// spawnEnv is extra environment for the workers of the current batch (part B of C18 sets it).
+var spawnEnv []string
+
 func spawn(self string, prop, tier string, seed uint64, w, W, start int, dir string, single bool) *procState {
 	args := []string{"worker", prop, tier, strconv.FormatUint(seed, 10), strconv.Itoa(w), strconv.Itoa(W), strconv.Itoa(start), dir}
 	if single {
@@ -336,6 +346,14 @@ func spawn(self string, prop, tier string, seed uint64, w, W, start int, dir str
 	}
 	cmd := exec.Command(self, args...)
 	cmd.Env = append(os.Environ(), "GOMAXPROCS=2", "GOGC=100")
+	cmd.Env = append(cmd.Env, spawnEnv...)
+	if prop == "C18" && len(spawnEnv) == 0 {
+		// part A hands control between parked goroutines at every seam call: one P keeps the hand-off on one thread
+		cmd.Env = append(cmd.Env, "GOMAXPROCS=1")
+	}
+	if len(spawnEnv) > 0 && w%2 == 0 {
+		cmd.Env = append(cmd.Env, "GOMAXPROCS=16")
+	}
 	logf, _ := os.Create(filepath.Join(dir, fmt.Sprintf("log-%d-%d.txt", w, start)))
 	cmd.Stdout = logf
 	cmd.Stderr = logf
@@ -378,13 +396,15 @@ func check(prop, tier string) int {
 	fmt.Printf("ionsim check property=%s scenario=%s tier=%s VERIF_SEED=%d workers=%d indices=%d\n", prop, s.Name(), tier, seed, W, s.Indices(tier))
 
 	stallLimit := time.Duration(envInt("IONSIM_STALL_S", 120)) * time.Second
+	infra := false
+	var extra []scenario.Violation // violations found by the parent (death / hang / race report)
+	deaths := 0
+	partB := map[string]interface{}{}
+	supervise := func(self string, dir string) {
 	var procs []*procState
 	for w := 0; w < W; w++ {
 		procs = append(procs, spawn(self, prop, tier, seed, w, W, 0, dir, false))
 	}
-	infra := false
-	var extra []scenario.Violation // violations found by the parent (death / hang)
-	deaths := 0
 	// supervise
 	for len(procs) > 0 {
 		var next []*procState
@@ -447,6 +467,49 @@ func check(prop, tier string) int {
 		procs = next
 		if len(procs) > 0 {
 			time.Sleep(50 * time.Millisecond)
+		}
+	}
+	}
+	supervise(self, dir)
+	expected := s.Indices(tier)
+	if prop == "C18" && os.Getenv("IONSIM_C18_PARTS") != "A" {
+		// part B: the same seeded task sets, free-running, in the -race build
+		raceBin := filepath.Join(filepath.Dir(self), "ionsim-race")
+		if _, err := os.Stat(raceBin); err != nil {
+			fmt.Println("part B needs", raceBin, "(./ionsim.sh build-race): infrastructure trouble")
+			infra = true
+		} else {
+			os.Setenv("IONSIM_C18_MODE", "free")
+			spawnEnv = []string{"IONSIM_C18_MODE=free", "GORACE=halt_on_error=0 history_size=4"}
+			bdir := filepath.Join(dir, "free")
+			os.MkdirAll(bdir, 0755)
+			tB := time.Now()
+			supervise(raceBin, bdir)
+			spawnEnv = nil
+			freeIdx := s.Indices(tier)
+			os.Unsetenv("IONSIM_C18_MODE")
+			reports, harnessRaces := collectRaces(bdir, seed)
+			for _, hr := range harnessRaces {
+				fmt.Println("race report without an ion-go frame (harness or runtime): infrastructure trouble\n" + hr)
+				infra = true
+			}
+			extra = append(extra, reports...)
+			// move part B result files next to part A's so that the merge below sees them
+			moved, _ := filepath.Glob(filepath.Join(bdir, "res-*.json"))
+			for k, f := range moved {
+				os.Rename(f, filepath.Join(dir, fmt.Sprintf("res-free-%d.json", k)))
+			}
+			mh, _ := filepath.Glob(filepath.Join(bdir, "hashes-*.bin"))
+			for k, f := range mh {
+				os.Rename(f, filepath.Join(dir, fmt.Sprintf("hashes-free-%d.bin", k)))
+			}
+			expected += freeIdx
+			partB["race_build"] = raceBin
+			partB["free_indices"] = freeIdx
+			partB["race_reports_with_ion_frames"] = len(reports)
+			partB["wall_s"] = time.Since(tB).Seconds()
+			partB["gomaxprocs"] = "16 (even workers) and 2 (odd workers)"
+			partB["note"] = "schedule not controlled in part B; the race detector's happens-before analysis is the oracle"
 		}
 	}
 
@@ -512,7 +575,7 @@ func check(prop, tier string) int {
 		}
 		// minimise, write replay file, confirm in a fresh process
 		mv, execs := v, 0
-		if !strings.HasSuffix(v.Clause, ".F") && !strings.HasSuffix(v.Clause, ".HANG") {
+		if !strings.HasSuffix(v.Clause, ".F") && !strings.HasSuffix(v.Clause, ".HANG") && !strings.HasSuffix(v.Clause, ".R") {
 			mv, execs = safeMinimise(s, v)
 		}
 		nviol++
@@ -555,6 +618,9 @@ func check(prop, tier string) int {
 		"known_findings_matched": knownLines,
 		"workers":                W,
 	}
+	if len(partB) > 0 {
+		cov["part_b_race_detector"] = partB
+	}
 	ev := map[string]interface{}{
 		"property_id": prop,
 		"tier":        tier,
@@ -589,8 +655,8 @@ func check(prop, tier string) int {
 		fmt.Println("INFRASTRUCTURE TROUBLE (exit 2): see messages above")
 		return 2
 	}
-	if indices < s.Indices(tier) && envInt("IONSIM_INDICES", 0) == 0 {
-		fmt.Printf("only %d of %d indices completed: infrastructure trouble\n", indices, s.Indices(tier))
+	if indices < expected && envInt("IONSIM_INDICES", 0) == 0 {
+		fmt.Printf("only %d of %d indices completed: infrastructure trouble\n", indices, expected)
 		return 2
 	}
 	fmt.Printf("OK property=%s held on everything explored\n", prop)
@@ -686,6 +752,163 @@ func investigate(self string, s scenario.Scenario, prop, tier string, seed uint6
 	first := strings.SplitN(string(logb), "\n", 2)[0]
 	sig := clause + "/" + scenario.DeathClass(first)
 	return scenario.Violation{Property: prop, Clause: clause, Signature: sig, Detail: detail + "; first log line: " + first, Seed: seed, Index: ix, Case: b}, true
+}
+
+// ---------------------------------------------------------------------------------------------------------
+// race reports (C18 part B)
+
+type raceReport struct {
+	Index int
+	Sig   string
+	Text  string
+	Ion   bool
+}
+
+var ionFrameRE = regexp.MustCompile(`github\.com/amzn/ion-go/ion\.([^\s(]+(?:\([^)]*\))?[^\s(]*)\(`)
+
+// parseRaces extracts the data race reports from a worker log. A report's signature is the first ion-go frame
+// of each of the two conflicting accesses.
+func parseRaces(log string) []raceReport {
+	var out []raceReport
+	index := -1
+	lines := strings.Split(log, "\n")
+	for i := 0; i < len(lines); i++ {
+		l := lines[i]
+		if strings.HasPrefix(l, "##INDEX ") {
+			index, _ = strconv.Atoi(strings.TrimSpace(l[8:]))
+			continue
+		}
+		if !strings.HasPrefix(l, "WARNING: DATA RACE") {
+			continue
+		}
+		// collect the block up to the closing ================== line
+		j := i + 1
+		for j < len(lines) && !strings.HasPrefix(lines[j], "==================") {
+			if strings.HasPrefix(lines[j], "##INDEX ") {
+				// a marker printed by the main goroutine can land inside a report only between indices; keep scanning
+			}
+			j++
+		}
+		block := lines[i:j]
+		var stanzas [][]string
+		var cur []string
+		for _, b := range block[1:] {
+			if strings.TrimSpace(b) == "" {
+				if len(cur) > 0 {
+					stanzas = append(stanzas, cur)
+					cur = nil
+				}
+				continue
+			}
+			cur = append(cur, b)
+		}
+		if len(cur) > 0 {
+			stanzas = append(stanzas, cur)
+		}
+		var frames []string
+		for k := 0; k < len(stanzas) && k < 2; k++ {
+			f := "?"
+			for _, ln := range stanzas[k] {
+				if m := ionFrameRE.FindStringSubmatch(ln); m != nil {
+					f = "ion." + m[1]
+					break
+				}
+			}
+			frames = append(frames, f)
+		}
+		sort.Strings(frames)
+		rr := raceReport{Index: index, Text: strings.Join(block, "\n")}
+		for _, f := range frames {
+			if f != "?" {
+				rr.Ion = true
+			}
+		}
+		rr.Sig = "C18.R/" + strings.Join(frames, "|")
+		out = append(out, rr)
+		i = j
+	}
+	return out
+}
+
+// collectRaces reads the part B worker logs and turns race reports into violations carrying the explicit case.
+func collectRaces(bdir string, seed uint64) (viols []scenario.Violation, harness []string) {
+	logs, _ := filepath.Glob(filepath.Join(bdir, "log-*.txt"))
+	sort.Strings(logs)
+	for _, lf := range logs {
+		b, err := ioutil.ReadFile(lf)
+		if err != nil {
+			continue
+		}
+		for _, rr := range parseRaces(string(b)) {
+			if !rr.Ion {
+				harness = append(harness, rr.Text)
+				continue
+			}
+			cs := scenario.ConcCaseJSON(seed, rr.Index)
+			txt := rr.Text
+			if len(txt) > 2500 {
+				txt = txt[:2500] + "..."
+			}
+			viols = append(viols, scenario.Violation{Property: "C18", Clause: "C18.R", Signature: rr.Sig, Detail: "race detector report while the task set ran free:\n" + txt, Seed: seed, Index: rr.Index, Case: cs})
+		}
+	}
+	return viols, harness
+}
+
+// replayFree replays a part B case in the -race build: the task set runs free several times; the interleaving is
+// the Go runtime's, so the replay is repeated (up to 12 processes x 20 repetitions) until the recorded
+// signature shows up again.
+func replayFree(rf replayFile, path string) int {
+	self, err := os.Executable()
+	if err != nil {
+		return 2
+	}
+	raceBin := filepath.Join(filepath.Dir(self), "ionsim-race")
+	if _, err := os.Stat(raceBin); err != nil {
+		fmt.Println("replay of a free-running case needs", raceBin, "(./ionsim.sh build-race)")
+		return 2
+	}
+	for attempt := 0; attempt < 12; attempt++ {
+		cmd := exec.Command(raceBin, "replay1", path)
+		gmp := "GOMAXPROCS=16"
+		if attempt%3 == 2 {
+			gmp = "GOMAXPROCS=2"
+		}
+		cmd.Env = append(os.Environ(), gmp, "IONSIM_C18_MODE=free", "GORACE=halt_on_error=0 history_size=4")
+		var outb, errb strings.Builder
+		cmd.Stdout = &outb
+		cmd.Stderr = &errb
+		done := make(chan error, 1)
+		if err := cmd.Start(); err != nil {
+			return 2
+		}
+		go func() { done <- cmd.Wait() }()
+		select {
+		case <-done:
+		case <-time.After(20 * time.Minute):
+			cmd.Process.Kill()
+			<-done
+			fmt.Println("replay: free-running case did not finish")
+			return 2
+		}
+		if strings.HasSuffix(rf.Clause, ".R") {
+			for _, rr := range parseRaces(errb.String()) {
+				fmt.Printf("replayed (attempt %d): race report signature=%s\n", attempt+1, rr.Sig)
+				if rr.Sig == rf.Signature {
+					fmt.Println(rr.Text)
+					fmt.Printf("VIOLATION property=%s replay=%s\n", rf.Property, path)
+					return 1
+				}
+			}
+			continue
+		}
+		fmt.Print(outb.String())
+		if strings.Contains(outb.String(), "VIOLATION property=") {
+			return 1
+		}
+	}
+	fmt.Println("replay: no violation reproduced")
+	return 0
 }
 
 func selftest(args []string) int {
